@@ -1,0 +1,68 @@
+//go:build verif
+
+// Contracts for authenticator failures (property C23). Comment-only.
+//
+// unavailableInChain(err): errors.As finds an *AuthUnavailableError in err's chain (the
+// predicate IS errors.As's verdict for that target type). failureInChain(err): asAuthFailure's
+// walk of the Unwrap chain finds an *AuthFailure (the predicate IS that function's verdict).
+// A "direct" RpcError is the error value itself, not something it wraps.
+
+package vgirpc
+
+//@ ghost pred unavailableInChain(err error)
+//@ ghost pred failureInChain(err error)
+//@ pure func directRpc(err error, ty string) bool = typeof(err) == *RpcError && as(err, "*RpcError") != nil && as(err, "*RpcError").Type == ty
+
+//@ func asAuthFailure
+//@   property C23
+//@   establishes result <==> failureInChain(err)
+//@   ensures [direct] typeof(err) == *AuthFailure ==> result && *out == as(err, "*AuthFailure")
+
+// authenticate: 503 exactly for an unavailable authority (with its Retry-After), 401 for a
+// rejection (an AuthFailure in the chain, or a directly returned ValueError / PermissionError
+// RpcError), 500 for anything else; nil whenever an error response was written.
+//
+//@ func (*HttpServer).authenticate
+//@   property C23
+//@   at call http.Error#1 assert [s503] arg2 == 503 && unavailableInChain(err)
+//@   at call (http.Header).Set#1 assert [retryafter] arg1 == "Retry-After" && unavailableInChain(err)
+//@   # (the 401 decision is stated where it is taken: classifyAuthError and writeUnauthorized follow with nothing in between)
+//@   at call classifyAuthError assert [s401] !unavailableInChain(err) && (failureInChain(err) || directRpc(err, "ValueError") || directRpc(err, "PermissionError"))
+//@   at call (*HttpServer).writeUnauthorized assert [rendered] arg3 == reason && arg4 == detail
+//@   at call http.Error#2 assert [s500] arg2 == 500 && !unavailableInChain(err) && !failureInChain(err) && !directRpc(err, "ValueError") && !directRpc(err, "PermissionError")
+//@   at call classifyAuthError assert [classified] arg0 == err
+//@   ensures [local_refused_ret2] result == nil
+//@   ensures [local_refused_ret3] result == nil
+//@   ensures [local_accepted_ret4] result == auth
+
+// classifyAuthError: the reason named by the AuthFailure in the chain (unclassified when it
+// names none); otherwise insufficient_scope for a direct PermissionError RpcError, and the
+// fallback for everything else — always a member of the closed set or the failure's own code.
+//
+//@ func classifyAuthError
+//@   property C23
+//@   ensures [local_named_ret1] failureInChain(err) && result0 == (failure.Reason == "" ? "unauthorized" : failure.Reason)
+//@   ensures [local_scope_ret2] !failureInChain(err) && directRpc(err, "PermissionError") && result0 == "insufficient_scope"
+//@   ensures [local_rpc_ret3] !failureInChain(err) && typeof(err) == *RpcError && !directRpc(err, "PermissionError") && result0 == "unauthorized"
+//@   ensures [local_other_ret4] !failureInChain(err) && typeof(err) != *RpcError && result0 == "unauthorized"
+
+// writeUnauthorized: the reason header carries the reason (the fallback when empty), the
+// response is never cacheable, the configured challenge is echoed.
+//
+//@ func (*HttpServer).writeUnauthorized
+//@   property C23
+//@   at call (http.Header).Set#2 assert [reason] arg1 == "VGI-Auth-Reason" && arg2 == (old(reason) == "" ? "unauthorized" : old(reason))
+//@   at call (http.Header).Set#3 assert [nostore] arg1 == "Cache-Control" && arg2 == "no-store"
+//@   at call (http.Header).Set#4 assert [challenge] arg1 == "WWW-Authenticate" && arg2 == h.wwwAuthenticate && arg2 != ""
+
+// The chained authenticator: the first success wins; the chain goes on to the next
+// authenticator only past a DIRECTLY returned ValueError RpcError that hides no unavailable
+// authority; any other error is returned as it is; an exhausted chain is a ValueError.
+//
+//@ func ChainAuthenticate$1
+//@   property C23
+//@   loop 0 onrepeat [direct] directRpc(err, "ValueError") && !unavailableInChain(err) && err != nil
+//@   ensures [local_success_ret1] result0 == ac && result1 == nil && err == nil
+//@   ensures [local_unavailable_ret2] result0 == nil && result1 == err && unavailableInChain(err)
+//@   ensures [local_stop_ret3] result0 == nil && result1 == err && err != nil && !directRpc(err, "ValueError")
+//@   ensures [local_exhausted_ret4] result0 == nil && directRpc(result1, "ValueError")
